@@ -9,9 +9,18 @@ import (
 )
 
 // ErrInjected is the root of every injected stream error.
-type InjectedError struct{ What string }
+type InjectedError struct {
+	What      string
+	Transient bool // the one-off failure of a stream with TransientErrAt set
+}
 
 func (e *InjectedError) Error() string { return "injected: " + e.What }
+
+// IsTransient reports whether err is the one-off failure of a stream with TransientErrAt set.
+func IsTransient(err error) bool {
+	var ie *InjectedError
+	return errors.As(err, &ie) && ie.Transient
+}
 
 func IsInjected(err error) bool {
 	var ie *InjectedError
@@ -224,7 +233,7 @@ func (s *Stream) Read(p []byte) (int, error) {
 		s.TransientDelivered = true
 		s.Env.Fault("transient-read-error" + s.tag())
 		op.End("0,transient error at %d", s.Pos)
-		return 0, &InjectedError{What: "transient read error (timeout)"}
+		return 0, &InjectedError{What: "transient read error (timeout)", Transient: true}
 	case zero:
 		s.Env.Fault("zero-length-read")
 		s.ZeroReadDelivered = true
